@@ -191,9 +191,18 @@ func ruleCarryContent(c *Ctx) {
 				}
 				return true
 			})
+			// go/cfg puts the value specs of a var declaration into the block
+			var specs []ast.Spec
 			if ds, ok := nd.(*ast.DeclStmt); ok {
 				if gd, ok := ds.Decl.(*ast.GenDecl); ok {
-					for _, sp := range gd.Specs {
+					specs = gd.Specs
+				}
+			} else if vs, ok := nd.(*ast.ValueSpec); ok {
+				specs = []ast.Spec{vs}
+			}
+			{
+				{
+					for _, sp := range specs {
 						if vs, ok := sp.(*ast.ValueSpec); ok && len(vs.Values) == 0 {
 							for _, nm := range vs.Names {
 								if isCarry(nm) {
